@@ -515,6 +515,25 @@ class ExprMixin:
         h = self.m.hooks["dict"](self, n, ks, vs, st) if "dict" in self.m.hooks else None
         if h is not None:
             return h
+        # general case: fold left to right into a Map(Str, Obj) (A-DICT: later entries win)
+        if all(k is None or (isinstance(k, T) and k.sort == STR) for k in ks):
+            ms = ("Map", STR, OBJ)
+            self.ctx.need(ms)
+            cur = T(ms, f"((as const {sort_smt(ms)}) {none_of(self.ctx, OBJ).s})")
+            for k, v in zip(ks, vs):
+                if k is None:
+                    if isinstance(v, EmptyV):
+                        continue
+                    if not (isinstance(v, T) and v.sort == ms):
+                        return self.opaque("dict")
+                    r = self.opaque("merge", ms)
+                    q = "|q_m|"
+                    e2 = f"(select {v.s} {q})"
+                    st.pc.append(f"(forall (({q} String)) (= (select {r.s} {q}) (ite {is_some(T(('Opt', OBJ), e2)).s} {e2} (select {cur.s} {q}))))")
+                    cur = r
+                else:
+                    cur = T(ms, f"(store {cur.s} {k.s} {some(self.ctx, self.to_obj(v)).s})")
+            return cur
         return self.opaque("dict")
 
     def ev_fstring(self, n, st, old):
